@@ -20,3 +20,18 @@ Print Assumptions C07_fd_safety_refuted.
 (* "closed exactly once, never used after close" is part of the ledger: close(2) removes
    the descriptor from the owned set, so a second close or any later call on that number
    (before the kernel hands it out again) would be rejected by fd_ok_but_stale_del. *)
+
+(* Non-vacuity: on the run that refutes the unrestricted ledger the ledger with the exemption holds and has
+   seen system calls; and it is not trivially true (a write on a closed descriptor is rejected). *)
+Example C07_nonvacuous :
+  match run_history LoopFd.stale_input with
+  | Some t => (fd_ok_but_stale_del (statics LoopFd.stale_input) t,
+               existsb (fun e => match e with EOut ("sys", _) => true | _ => false end) t)
+  | None => (false, false)
+  end = (true, true) /\
+  fd_ok_but_stale_del [3]
+    [EIn ("accepted", [AInt 5]);
+     EOut (obs "sys" [ASym "close"; AInt 5]); EIn ("r", [ASym "close"; AInt 0]);
+     EOut (obs "sys" [ASym "wr"; AInt 5])] = false.
+Proof. split; [exact LoopFd.ex_stale_partial|exact LoopFd.ex_fd_rejects]. Qed.
+Print Assumptions C07_nonvacuous.
